@@ -56,7 +56,7 @@ func zzHoldsBitExact(st store.Store, g *zzSrc) bool {
 
 func zzC09Source(srcKind int, mk int) (*DDSketch, *zzSrc, *zzSrc) {
 	zzvExactFloatsOnly()
-	zzvMapOrderFixed(true)
+	zzvMapOrders(2)
 	zzNarrowBase = srcKind == 2
 	s := NewDDSketch(zzRealMapping(mk), zzProvider(srcKind)(), zzProvider(srcKind)())
 	gp := zzFillF(s.positiveValueStore, "pos", 4)
@@ -97,7 +97,7 @@ func ZZ_C09_rebuild_lowest_sparse() { zzC09Rebuild(3, 0) }
 func ZZ_C09_mixed_message_adds_up() {
 	zzvBound("mixed message", "BinCounts with 2 entries and ContiguousBinCounts of length 3 at a symbolic offset, the sparse keys possibly inside the contiguous range; arbitrary positive weights; target kinds sparse / dense / paginated")
 	zzvExactFloatsOnly()
-	zzvMapOrderFixed(true)
+	zzvMapOrders(2)
 	dstKind := zzvChoose("dstKind", 3)
 	var off int
 	if dstKind == 2 {
